@@ -1,6 +1,6 @@
 """Source of MANIFEST.json (bin/mkmanifest). One entry per claimed property."""
 
-HOOK_COMMITS = []
+HOOK_COMMITS = ["3ccfb0e", "8690cd2", "ca367a9", "6084310"]
 
 NOT_APPLICABLE = {}
 
@@ -35,6 +35,19 @@ CHECKS = {
         "note": ENGINE_NOTE + " Calls are interleaved one at a time (property text); snapshots are re-dumped through the exported catalog structures.",
         "technique": "TLA+ transaction model (Txn.tla) checked by TLC; code->spec validation of recorded interleaved transaction histories with snapshot re-dumps",
     },
+    "C04": {
+        "level": "model_checking",
+        "text": "Concurrent workers ($inc read-modify-writes, find-and-modify post-images, multi-document session transactions incl. aborted ones, inserts, deletes, "
+                "racing unique updates, reads) run under the verif hooks with seeded yields at the lock hand-over windows; the hooks record under the engine mutex the "
+                "linearization point of every call (catalog given to a read; catalog current at publish and catalog published for a write). TLC validates every call "
+                "with Database!Exec at its linearization point and folds session transactions, i.e. replaying the committed writes in publication order reproduces "
+                "every returned result and the final contents; the harness checks that publications form one chain and that no writer published on a catalog other "
+                "than its base; a forced interleaving parks a writer between unlock and slot acquisition while another transaction commits; EngineProto is model "
+                "checked for mutual exclusion, token conservation and deadlock freedom.",
+        "note": ENGINE_NOTE + " Interleavings are explored at hook granularity (critical-section hand-over points); schedules are sampled (seeded yields) plus forced "
+                "interleavings, not enumerated exhaustively on the real code.",
+        "technique": "hook-recorded linearization points validated by TLC against the sequential TLA+ model; PlusCal engine protocol model checked by TLC; forced interleavings replayed on real goroutines",
+    },
     "C06": {
         "level": "model_checking",
         "text": "Random histories run on a FileStore with close/reopen points; every reload is recorded (state, index definitions and listings, complete change log, "
@@ -68,6 +81,18 @@ CHECKS = {
                 "conflicting one fails, drops spare _id_); the position index of every document set is checked by the harness.",
         "note": ENGINE_NOTE + " Index.List() hides duplicate entries of one document.",
         "technique": "TLA+ invariant IndexListingOK and reference model evaluated by TLC on recorded traces (code->spec trace validation)",
+    },
+    "C16": {
+        "level": "model_checking",
+        "text": "EngineProto.tla (PlusCal: engine mutex, session mutex, writer token, engine transaction, session start reservation, Begin/Commit/Abort/Close and the "
+                "session calls with store failures and cancelled waits) is model checked exhaustively for 2 actors x 2 calls (557k states): token conservation, never "
+                "'semaphore full', transaction implies held token, deadlock freedom; its deadlock counterexample for lungo's former lock order is replayed on real "
+                "goroutines as a forced interleaving. Fault scenarios (short contexts, failing stores, session commit/abort/end, panicking callbacks, sessions ended "
+                "while StartTransaction waits, collection operations with a session context racing AbortTransaction, streams, Close at random points) run under the "
+                "hooks with seeded yields; TLC validates the hook events (taken under the engine mutex, token hand-over events from the semaphore) against the writer-"
+                "slot protocol; after every scenario a probe write with a deadline must succeed (closed error after Close) and goroutines must return to baseline.",
+        "note": "Trusted: hook placement (add-only one-liners at the lock hand-over sites, build tag verif). Liveness on real code is a bounded-wait observation.",
+        "technique": "PlusCal/TLA+ engine protocol model checked by TLC; hook-event traces validated by TLC against the protocol; forced interleavings and fault injection on real goroutines",
     },
     "C17": {
         "level": "model_checking",
